@@ -280,7 +280,7 @@ func (w *World) loadsOnly(v ssa.Value, want ssa.Value) bool {
 // Height field, a parameter that receives such a value at every call site on
 // the query path, or the last committed height used for height <= 0)?
 func (w *World) heightDerived(v ssa.Value, reach *Reach, depth int) bool {
-	if depth > 4 {
+	if depth > 8 {
 		return false
 	}
 	v = stripConv(v)
@@ -346,9 +346,105 @@ func (w *World) heightDerived(v ssa.Value, reach *Reach, depth int) bool {
 				}
 				return n > 0
 			}
+			// a field of a local parameter object (its address may be handed to the rpc
+			// core as well): every store to that field of that variable must qualify
+			if fa, ok := y.X.(*ssa.FieldAddr); ok {
+				if a, isA := fa.X.(*ssa.Alloc); isA && a.Referrers() != nil {
+					n := 0
+					for _, ref := range *a.Referrers() {
+						switch z := ref.(type) {
+						case *ssa.FieldAddr:
+							if z.Field != fa.Field || z.Referrers() == nil {
+								continue
+							}
+							for _, r2 := range *z.Referrers() {
+								if st, isSt := r2.(*ssa.Store); isSt && st.Addr == ssa.Value(z) {
+									if w.Canon(st.Val) == "recv.lastBlockHeight" {
+										continue
+									}
+									if !w.heightDerived(st.Val, reach, depth+1) {
+										return false
+									}
+									n++
+								}
+							}
+						case *ssa.Store:
+							if z.Addr == ssa.Value(a) {
+								// assigned as a whole from a helper's result: that field of the result
+								var call *ssa.Call
+								switch v := z.Val.(type) {
+								case *ssa.Call:
+									call = v
+								case *ssa.Extract:
+									call, _ = v.Tuple.(*ssa.Call)
+								}
+								if call == nil || depth >= 7 || !w.heightFieldOfResult(call, fa.Field, deref(a.Type()), reach, depth+1) {
+									return false
+								}
+								n++
+							}
+						}
+					}
+					return n > 0
+				}
+			}
+		}
+	case *ssa.Field:
+		// a field of the parameter object a helper filled in and returned
+		var call *ssa.Call
+		switch z := y.X.(type) {
+		case *ssa.Call:
+			call = z
+		case *ssa.Extract:
+			call, _ = z.Tuple.(*ssa.Call)
+		}
+		if call != nil && depth < 7 {
+			return w.heightFieldOfResult(call, y.Field, fieldHost(y), reach, depth+1)
 		}
 	}
 	return false
+}
+
+// heightFieldOfResult: field f of the struct (of type host) that the callee of call
+// fills in and returns is derived from the request height.
+func (w *World) heightFieldOfResult(call *ssa.Call, f int, host types.Type, reach *Reach, depth int) bool {
+	fn := call.Common().StaticCallee()
+	if fn == nil || !w.InModule(fn) || fn.Blocks == nil {
+		return false
+	}
+	n := 0
+	for _, b := range fn.Blocks {
+		for _, in := range b.Instrs {
+			fa, ok := in.(*ssa.FieldAddr)
+			if !ok || fa.Field != f || !types.Identical(deref(fa.X.Type()), host) {
+				continue
+			}
+			if _, isA := fa.X.(*ssa.Alloc); !isA || fa.Referrers() == nil {
+				continue
+			}
+			for _, r2 := range *fa.Referrers() {
+				if st, isSt := r2.(*ssa.Store); isSt && st.Addr == ssa.Value(fa) {
+					if w.Canon(st.Val) == "recv.lastBlockHeight" {
+						continue
+					}
+					if !w.heightDerived(st.Val, reach, depth+1) {
+						return false
+					}
+					n++
+				}
+			}
+		}
+	}
+	return n > 0
+}
+
+// fieldHost: the struct type a Field instruction selects from.
+func fieldHost(f *ssa.Field) types.Type {
+	t := f.X.Type()
+	if tup, ok := t.(*types.Tuple); ok && tup.Len() > 0 {
+		return tup.At(0).Type()
+	}
+	return t
 }
 
 func q2(w *World, r *Report, reach *Reach, scope []*ssa.Function) {
@@ -426,6 +522,17 @@ func q3(w *World, r *Report) {
 						if cal := c.Common().StaticCallee(); cal != nil && w.InModule(cal) && w.FuncPkgPath(cal) == w.FuncPkgPath(f) {
 							scan(cal, d+1)
 						}
+					}
+					// a dispatch table keyed by the path: its keys
+					if lk, isL := in.(*ssa.Lookup); isL {
+						if oc := w.Canon(lk.Index); oc == reqCanon+".Path" || (d > 0 && strings.HasSuffix(oc, ".Path")) {
+							if lm := w.literalMap(stripConv(lk.X)); lm != nil {
+								for _, ent := range lm.Entries {
+									out[keyString(ent.Key)] = true
+								}
+							}
+						}
+						continue
 					}
 					bo, ok := in.(*ssa.BinOp)
 					if !ok || bo.Op != token.EQL {
